@@ -197,3 +197,32 @@ package wire
 //@     modifies fresh, ghost("rcount"), ghost("desync"), ghost("rfail"), ghost("rejected"), ghost("unmarshalledFrom"), ghost("unmarshalled")
 //@     invariant !desync(r) && rcount(r) == old(rcount(r0)) + 1 + $i && mapLen == len(x) && len(*a) == len(x) && fresh(arr(*a))
 //@     invariant forall k int :: 0 <= k && k < $i ==> (*a)[k] != nil && wAddrMapEq((*a)[k], x[k])
+
+//@ func verifRoundTripPingPongMsg
+//@   tokenmodel
+//@   requires w0 != nil && r0 != nil
+//@   modifies *
+//@   inlines (PingPongMsg).Encode, (*PingPongMsg).Decode
+//@   ensures encErr == nil && !rfail(r0) ==> decErr == nil
+//@   ensures encErr == nil && decErr == nil ==> !desync(r0) && rcount(r0) - old(rcount(r0)) == wcount(w0) - old(wcount(w0))
+//@   ensures encErr == nil && decErr == nil ==> unixnano(y.Created) == unixnano(x.Created)
+
+//@ func verifRoundTripShutdownMsg
+//@   tokenmodel
+//@   requires w0 != nil && r0 != nil && x != nil
+//@   modifies *
+//@   inlines (*ShutdownMsg).Encode, (*ShutdownMsg).Decode
+//@   ensures encErr == nil && !rfail(r0) ==> decErr == nil
+//@   ensures encErr == nil && decErr == nil ==> !desync(r0) && rcount(r0) - old(rcount(r0)) == wcount(w0) - old(wcount(w0))
+//@   ensures encErr == nil && decErr == nil ==> y != nil && y.Reason == x.Reason
+
+// Byte level: a 32-bit big-endian length, then the signature bytes.
+//@ pred wLinked(w io.Writer, r io.Reader, p int, q int, n int) = forall i int :: 0 <= i && i < n ==> streamAt(r, q + i) == wroteAt(w, p + i)
+//@ func verifRoundTripAuthResponseMsg
+//@   requires w != nil && r != nil && x != nil && streaming()
+//@   modifies *
+//@   inlines (*AuthResponseMsg).Encode, (*AuthResponseMsg).Decode
+//@   ensures encErr == nil && wLinked(w, r, old(wpos(w)), old(rpos(r)), wpos(w) - old(wpos(w))) && !rfail(r) ==> decErr == nil
+//@   ensures encErr == nil && decErr == nil && wLinked(w, r, old(wpos(w)), old(rpos(r)), wpos(w) - old(wpos(w))) ==>
+//@     y != nil && len(y.Signature) == len(x.Signature) && (forall i int :: 0 <= i && i < len(x.Signature) ==> y.Signature[i] == x.Signature[i]) &&
+//@     rpos(r) - old(rpos(r)) == wpos(w) - old(wpos(w))
